@@ -3,10 +3,13 @@
 // NOT part of /repo). Everything marked external_body / assume_specification
 // here is an ASSUMPTION and is listed in every evidence file.
 // ===========================================================================
+global size_of usize == 8;
+
 use core::marker::PhantomData;
 use core::convert::TryFrom;
 use core::ops::{Add, AddAssign, Sub, SubAssign, Range, RangeFrom, RangeInclusive, RangeTo, RangeFull, Index, IndexMut};
 use vstd::std_specs::cmp::*;
+use vstd::std_specs::convert::IntoSpec;
 use vstd::std_specs::ops::*;
 use vstd::bits::*;
 use vstd::arithmetic::power2::*;
@@ -235,6 +238,22 @@ pub proof fn lemma_floor_multiple(a: int, al: int)
         }
         lemma_mul_inequality(qa + 1, qm, al);
     }
+}
+
+// ---- conversions ---------------------------------------------------------
+
+/// value of an `Into<u64>` argument (vstd's spec for the std integer conversions)
+pub open spec fn into_u64<U: Into<u64>>(a: U) -> u64 { IntoSpec::<u64>::into_spec(a) }
+
+/// integer value of a raw pointer: uninterpreted (any u64 is possible)
+pub uninterp spec fn ptr_addr_spec<T: ?Sized>(p: *const T) -> u64;
+
+/// stands for `ptr as *const () as u64` (R8-style stated rewrite; ASSUMED to be that cast)
+#[verifier::external_body]
+pub fn ptr_to_u64<T: ?Sized>(p: *const T) -> (r: u64)
+    ensures r == ptr_addr_spec(p)
+{
+    p as *const () as u64
 }
 
 // ---- assumed contracts on std ----------------------------------------------
